@@ -387,10 +387,12 @@ func (e *Engine) step(p *partition, row map[string]any, ts, seq int64) []map[str
 			continue // 超长：丢弃
 		}
 		succ := e.advance(r, row)
+		if hasAccept(r.states) {
+			// r is a match on its own (A+/A* tail, or (A B)+ after a full iteration). Record it
+			// even when it also extends: the extension may die before it accepts again.
+			completions = append(completions, r)
+		}
 		if len(succ) == 0 {
-			if hasAccept(r.states) {
-				completions = append(completions, r) // 未界重复（A+/A*）收尾
-			}
 			continue
 		}
 		for _, s := range succ {
